@@ -249,7 +249,11 @@ func runCmd(args []string) {
 				sh = "exec \"$0\" \"$@\""
 			}
 			cmd := exec.Command("sh", append([]string{"-c", sh, bin}, wargs...)...)
-			cmd.Env = append(os.Environ(), "GOMAXPROCS=1", "GORACE=halt_on_error=0 history_size=2")
+			cmd.Env = append(os.Environ(), "GOMAXPROCS=1")
+			if pi.Race {
+				rl := filepath.Join(scratch, fmt.Sprintf("race_%d", i))
+				cmd.Env = append(cmd.Env, "GORACE=halt_on_error=0 history_size=3 log_path="+rl, "VERIF_RACELOG="+rl)
+			}
 			var so, se strings.Builder
 			cmd.Stdout, cmd.Stderr = &so, &se
 			done := make(chan error, 1)
@@ -278,9 +282,6 @@ func runCmd(args []string) {
 			if err := json.Unmarshal(b, &o); err != nil {
 				errs[i] = fmt.Sprintf("shard %d: %v", i, err)
 				return
-			}
-			if pi.Race && se.Len() > 0 {
-				o.Units = append(o.Units, &hx.Unit{Name: "race-stderr", Notes: []string{tail(se.String(), 200)}, Exhaustive: true})
 			}
 			outs[i] = &o
 		}(i)
